@@ -1,6 +1,8 @@
 HOOK_COMMITS = ["e2d838b verif hook (cfg scrut_verif): virtual clock for the stateful executor"]
 NOTES = "Model checking = bounded exhaustive exploration of the real code against reference models; see DESIGN.md. Exit 0 held / 1 violation / >=2 machinery failure."
 ENGINES = [
+    {"name": "vc_cli", "path": "harness/src/engines/vc_cli.rs", "serves_properties": ["C15", "C18", "C20"],
+     "kind_free_text": "exhaustive scenario enumeration through the real scrut binary (sandboxed TMPDIR/HOME/process group) vs reference"},
     {"name": "vc_timeout", "path": "harness/src/engines/vc_timeout.rs", "serves_properties": ["C14"],
      "kind_free_text": "virtual-clock exploration of the real executor with a fake Runner vs timeline model; real-time replays through the binary"},
     {"name": "vc_verdict", "path": "harness/src/engines/vc_verdict.rs", "serves_properties": ["C05"],
@@ -115,5 +117,20 @@ CHECKS.append(
      "technique": "exhaustive exploration of the executor's timeline under a virtual clock (hook) with a fake Runner against a reference timeline model, plus real-time conformance replays of model traces through the scrut binary",
      "text": "Every document of 1..3 test cases over duration x per-test timeout x wait x document limit is run through the real StatefulExecutor::execute_all under a virtual clock; which limit fires, at which test, with how many outputs and at what virtual time must equal the reference timeline, and execution never extends beyond the document limit. The model's traces are replayed in real time through `scrut test` (kinds timeout/skipped, exit status 50, wall time within [limit, limit+1.5 s], no timeout for fast commands, timed-out shell terminated).",
      "note": "virtual clock hook H1 (cfg scrut_verif) in stateful_executor.rs; real time only by replays (L1); surviving grandchildren of a timed out shell recorded as known finding"})
+CHECKS.append(
+    {"id": "C15", "engine": "vc_cli", "category": "exploration", "design_ref": "DESIGN.md §2 C15",
+     "technique": "exhaustive enumeration of short documents (position and kind of the skipping test case x skip-code setting x format x second document) through the real scrut binary against a reference",
+     "text": "Every Markdown/Cram document up to the bound over pass/fail/exit-80/exit-81 (with and without the code being expected) is run with default, front-matter and inline skip codes, alone and next to an ordinary document, through `scrut test -r json`; per-test kinds must be all `skipped` exactly when some executed test case exits with its own skip code, otherwise none is skipped, and the process exit status must follow (a skipped document never fails the run).",
+     "note": "documents of up to 2 (quick) / 3 (thorough) test cases; /bin/bash of this image"})
+CHECKS.append(
+    {"id": "C18", "engine": "vc_cli", "category": "fault_enumeration", "design_ref": "DESIGN.md §2 C18",
+     "technique": "exhaustive enumeration of runs over outcome classes (incl. early aborts) x flags x format mixes through the real scrut binary in a private TMPDIR, observing work directories, environment and left-over directories",
+     "text": "Every run of 1..2 (quick) / 1..3 (thorough) documents over 7 outcome classes (success, validation failure, timeout, skip, parse error, script exit error, non-executable shell) x {none, --work-directory, --keep-temporary-directories} x Markdown/Cram x equal/different file names is executed; every test case records pwd and the documented variables: one work directory per document, never shared, variables as documented and set afresh after a test case tampered with them, and after exit the private TMPDIR is empty (or holds only the kept directories / the given work directory is intact without temp.*).",
+     "note": "several scrut processes at the same time only as free-running sampling (L2), labelled in the evidence"})
+CHECKS.append(
+    {"id": "C20", "engine": "vc_cli", "category": "exploration", "design_ref": "DESIGN.md §2 C20",
+     "technique": "exhaustive enumeration of runs (documents x behaviours x prepend/append variants x error classes) through the real scrut binary, with an execution log written by the test commands themselves",
+     "text": "Every scenario up to the bound is run twice (json and pretty renderer); each command appends its identity to a log before doing anything else: the log must hold every reached test case exactly once in document order with prepends first and appends last, json must hold exactly one result per non-detached test case (at most one per detached one), the pretty summary must add up, and the exit status must be 1 for the error classes, else 50 iff some test failed or timed out, else 0.",
+     "note": "order of documents within a directory argument is not promised and compared per document"})
 claimed = {c["id"] for c in CHECKS}
 NOT_APPLICABLE = [{"property_id": p, "reason": "check not built yet (work in progress; planned in DESIGN.md)"} for p in ALL if p not in claimed]
